@@ -23,7 +23,24 @@ type runTracerouteOnceFnType func(ctx context.Context, params TracerouteParams, 
 // runTracerouteOnceFn is declared for testing purpose (to be replaced by mock impl during tests)
 var runTracerouteOnceFn = runTracerouteOnce
 
+// ttlRange checks that the requested TTL bounds can be represented on the wire
+// and returns them in the width the drivers use.
+func ttlRange(minTTL int, maxTTL int) (uint8, uint8, error) {
+	if minTTL < 1 || minTTL > 255 {
+		return 0, 0, fmt.Errorf("invalid min TTL %d: must be between 1 and 255", minTTL)
+	}
+	if maxTTL < 1 || maxTTL > 255 {
+		return 0, 0, fmt.Errorf("invalid max TTL %d: must be between 1 and 255", maxTTL)
+	}
+	return uint8(minTTL), uint8(maxTTL), nil
+}
+
 func runTracerouteOnce(ctx context.Context, params TracerouteParams, destinationPort int) (*result.TracerouteRun, error) {
+	minTTL, maxTTL, err := ttlRange(params.MinTTL, params.MaxTTL)
+	if err != nil {
+		return nil, err
+	}
+
 	var trRun *result.TracerouteRun
 	switch params.Protocol {
 	case "udp":
@@ -34,8 +51,8 @@ func runTracerouteOnce(ctx context.Context, params TracerouteParams, destination
 		cfg := udp.NewUDPv4(
 			target.Addr().AsSlice(),
 			target.Port(),
-			uint8(params.MinTTL),
-			uint8(params.MaxTTL),
+			minTTL,
+			maxTTL,
 			time.Duration(params.Delay)*time.Millisecond,
 			params.Timeout,
 			params.UseWindowsDriver)
@@ -52,18 +69,18 @@ func runTracerouteOnce(ctx context.Context, params TracerouteParams, destination
 		}
 
 		doSyn := func() (*result.TracerouteRun, error) {
-			tr := tcp.NewTCPv4(target.Addr().AsSlice(), target.Port(), uint8(params.MinTTL), uint8(params.MaxTTL), time.Duration(params.Delay)*time.Millisecond, params.Timeout, params.TCPSynParisTracerouteMode, params.UseWindowsDriver)
+			tr := tcp.NewTCPv4(target.Addr().AsSlice(), target.Port(), minTTL, maxTTL, time.Duration(params.Delay)*time.Millisecond, params.Timeout, params.TCPSynParisTracerouteMode, params.UseWindowsDriver)
 			return tr.Traceroute()
 		}
 		doSack := func() (*result.TracerouteRun, error) {
-			sackParams, err := makeSackParams(target.Addr().AsSlice(), target.Port(), uint8(params.MinTTL), uint8(params.MaxTTL), params.Timeout, params.UseWindowsDriver)
+			sackParams, err := makeSackParams(target.Addr().AsSlice(), target.Port(), minTTL, maxTTL, params.Timeout, params.UseWindowsDriver)
 			if err != nil {
 				return nil, fmt.Errorf("failed to make sack params: %w", err)
 			}
 			return sack.RunSackTraceroute(context.TODO(), sackParams)
 		}
 		doSynSocket := func() (*result.TracerouteRun, error) {
-			tr := tcp.NewTCPv4(target.Addr().AsSlice(), target.Port(), uint8(params.MinTTL), uint8(params.MaxTTL), time.Duration(params.Delay)*time.Millisecond, params.Timeout, params.TCPSynParisTracerouteMode, params.UseWindowsDriver)
+			tr := tcp.NewTCPv4(target.Addr().AsSlice(), target.Port(), minTTL, maxTTL, time.Duration(params.Delay)*time.Millisecond, params.Timeout, params.TCPSynParisTracerouteMode, params.UseWindowsDriver)
 			return tr.TracerouteSequentialSocket()
 		}
 
@@ -80,8 +97,8 @@ func runTracerouteOnce(ctx context.Context, params TracerouteParams, destination
 			Target: target.Addr(),
 			ParallelParams: common.TracerouteParallelParams{
 				TracerouteParams: common.TracerouteParams{
-					MinTTL:            uint8(params.MinTTL),
-					MaxTTL:            uint8(params.MaxTTL),
+					MinTTL:            minTTL,
+					MaxTTL:            maxTTL,
 					TracerouteTimeout: params.Timeout,
 					PollFrequency:     100 * time.Millisecond,
 					SendDelay:         time.Duration(params.Delay) * time.Millisecond,
